@@ -514,7 +514,6 @@ pub open spec fn u32_at(h: Seq<u8>, off: int) -> int { le32(h.subrange(off, off 
 /// header signature D0 CF 11 E0 A1 B1 1A E1 at offset 0
 pub open spec fn ole_signature() -> Seq<u8> { seq![0xD0u8, 0xCFu8, 0x11u8, 0xE0u8, 0xA1u8, 0xB1u8, 0x1Au8, 0xE1u8] }
 pub open spec fn hdr_signature_ok(h: Seq<u8>) -> bool { h.len() >= 8 && h.subrange(0, 8) == ole_signature() }
-pub open spec fn hdr_major_version(h: Seq<u8>) -> int { u16_at(h, 26) }
 pub open spec fn hdr_sector_shift(h: Seq<u8>) -> int { u16_at(h, 30) }
 pub open spec fn hdr_mini_sector_shift(h: Seq<u8>) -> int { u16_at(h, 32) }
 pub open spec fn hdr_num_dir_sectors(h: Seq<u8>) -> int { u32_at(h, 40) }
@@ -568,7 +567,6 @@ proof fn lemma_signature(h: Seq<u8>)
             Ok((hd, difat)) => {
                 let h = (*old(f)).rem();
                 &&& hdr_valid(h)
-                &&& hd.version as int == hdr_major_version(h)
                 &&& hd.sector_size as int == hdr_sector_size(h)
                 &&& hd.dir_len as int == hdr_num_dir_sectors(h)
                 &&& hd.fat_len as int == hdr_num_fat_sectors(h)
@@ -597,7 +595,7 @@ proof fn lemma_signature(h: Seq<u8>)
             lemma_signature(inp);
             assert(signature == Some(le64(inp.subrange(0, 8)) as u64));
         }
-//@@ before /let version = /
+//@@ before /let sector_size = match/
         proof {
             assert(hdr_signature_ok(inp));
             assert(buf@.subrange(26, 28) =~= inp.subrange(26, 28));
@@ -787,7 +785,8 @@ pub open spec fn cfb_parse(inp: Seq<u8>, fuel: nat) -> Option<Parsed> {
             let dir_start = hdr_first_dir_sector(inp) as u32;
             if !all_in(data, size, ids) || !chain_ok(data, size, fat, dir_start, fuel) { None } else {
                 let dirs = dir_entries(stream_bytes(data, size, fat, dir_start, hdr_num_dir_sectors(inp) * size, fuel), size);
-                if dirs.len() == 0 || (hdr_major_version(inp) != 3 && dirs[0].start == 0xFFFF_FFFEu32) { None }
+                // [MS-CFB] 2.6.3: the root entry's start sector is ENDOFCHAIN exactly when the file has no mini stream -- legal in either version
+                if dirs.len() == 0 { None }
                 else if hdr_num_mini_fat_sectors(inp) == 0 {
                     Some(Parsed { size, data, fat, dirs, mini_fat: Seq::<u32>::empty(), mini_stream: Seq::<u8>::empty() })
                 } else {
@@ -942,7 +941,6 @@ pub open spec fn parse_facts(inp: Seq<u8>, f: nat) -> bool {
     &&& p.size == size && p.data == data && p.fat == fat
     &&& p.dirs == dir_entries(stream_bytes(data, size, fat, dir_start, hdr_num_dir_sectors(inp) * size, f), size)
     &&& p.dirs.len() > 0
-    &&& !(hdr_major_version(inp) != 3 && p.dirs[0].start == 0xFFFF_FFFEu32)
     &&& (hdr_num_mini_fat_sectors(inp) == 0 ==> p.mini_fat == Seq::<u32>::empty() && p.mini_stream == Seq::<u8>::empty())
     &&& (hdr_num_mini_fat_sectors(inp) != 0 ==> chain_ok(data, size, fat, p.dirs[0].start, f) && chain_ok(data, size, fat, mf_start, f)
             && p.mini_fat == le32_words(stream_bytes(data, size, fat, mf_start, hdr_num_mini_fat_sectors(inp) * size, f))
